@@ -26,7 +26,8 @@ func (ex *Exec) splitGoal(g *Term, hyps []*Term, out *[]subgoal) {
 			}
 			return
 		case "=>":
-			h2 := append(append([]*Term{}, hyps...), g.Args[0])
+			// an existential hypothesis is used through a fresh witness
+			h2 := append(append([]*Term{}, hyps...), ex.skolemPos(g.Args[0]))
 			ex.splitGoal(g.Args[1], h2, out)
 			return
 		case "forall":
@@ -115,6 +116,8 @@ func (ex *Exec) engineAxioms(used map[string]bool) string {
 (assert (forall ((d (Array Int Bool)) (k Int)) (! (= (card (store d k false)) (ite (select d k) (- (card d) 1) (card d))) :pattern ((card (store d k false))))))
 (assert (forall ((d (Array Int Bool)) (k Int)) (! (=> (select d k) (> (card d) 0)) :pattern ((card d) (select d k)))))
 (assert (= (card ((as const (Array Int Bool)) false)) 0))
+(declare-fun cardwit ((Array Int Bool)) Int)
+(assert (forall ((d (Array Int Bool))) (! (=> (> (card d) 0) (select d (cardwit d))) :pattern ((card d)))))
 `)
 	}
 	if used["sidsetf"] {
@@ -125,8 +128,7 @@ func (ex *Exec) engineAxioms(used map[string]bool) string {
 `)
 	}
 	if used["joinspf"] {
-		sb.WriteString(`(declare-fun catid (Int Int) Int)
-(assert (forall ((a Str) (b Str)) (! (= (sid (sconcat a b)) (catid (sid a) (sid b))) :pattern ((sconcat a b)))))
+		sb.WriteString(`(assert (forall ((a Str) (b Str)) (! (= (sid (sconcat a b)) (catid (sid a) (sid b))) :pattern ((sconcat a b)))))
 (assert (forall ((r (Array Int Str)) (lo Int) (sep Str)) (! (and (= (sid (joinspf r lo (+ lo 1) sep)) (sid (select r lo))) (= (slen (joinspf r lo (+ lo 1) sep)) (slen (select r lo)))) :pattern ((joinspf r lo (+ lo 1) sep)))))
 (assert (forall ((r (Array Int Str)) (lo Int) (hi Int) (sep Str)) (! (=> (> hi lo) (and (= (sid (joinspf r lo (+ hi 1) sep)) (catid (sid (joinspf r lo hi sep)) (catid (sid sep) (sid (select r hi))))) (= (slen (joinspf r lo (+ hi 1) sep)) (+ (slen (joinspf r lo hi sep)) (slen sep) (slen (select r hi)))))) :pattern ((joinspf r lo (+ hi 1) sep)))))
 `)
@@ -282,12 +284,13 @@ func (ex *Exec) buildQueryMode(o *Obligation, sg subgoal, exclude string, values
 		if eng["subobj"] {
 			sb.WriteString("(declare-fun subobj.owner (Int) Int)\n(declare-fun subobj.field (Int) Int)\n")
 		}
+		if eng["card"] {
+			sb.WriteString("(declare-fun cardwit ((Array Int Bool)) Int)\n")
+		}
 		if eng["sidsetf"] {
 			sb.WriteString("(declare-fun sidwit ((Array Int Str) Int Int Int) Int)\n")
 		}
-		if eng["joinspf"] {
-			sb.WriteString("(declare-fun catid (Int Int) Int)\n")
-		}
+
 	}
 	focus := append(append([]*Term{}, sg.hyps...), neg)
 	insts := preInstantiate(ex.D, append(append([]*Term{}, asserts...), extra...), focus, withPairs, o.Hints, tiny)
